@@ -28,6 +28,8 @@ def search(ctx):
 
 
 def run_witness(ctx, finding):
+    if common.run_script_witness(ctx, finding, timeout=300):
+        return
     c08files.run_witness(ctx, finding) or _sched.run_witness(ctx, PROP, finding)
 
 
